@@ -29,13 +29,34 @@ def gen(rnd, nh_only=False):
     pat = rnd.choice(["none", "pair", "two-pairs", "pair"])
     if pat in ("pair", "two-pairs") and dA >= 2: ev[1] = ev[0]
     if pat == "two-pairs" and dA >= 4: ev[3] = ev[2]
-    if herm:
+    structure = "generic"
+    if herm and pat != "none" and dA >= 2 and N >= 4 and rnd.random() < 0.35:
+        # a degenerate doublet of mirror-even states: equal amplitudes on mirror-related sites, so the heaviest rows of the kernel are linearly dependent
+        structure = "mirror-even doublet"
+        J = np.eye(N)[::-1]
+        def even(v): return v + J @ v
+        B0 = np.column_stack([even(rand((N,))), even(rand((N,)))] + [rand((N,)) for _ in range(N - 2)])
+        Q, _ = np.linalg.qr(B0); R = Q; L = Q                      # the first two columns span the two mirror-even vectors
+    elif herm:
         Q, _ = np.linalg.qr(rand((N, N))); R = Q; L = Q
+    elif rnd.random() < 0.3 and N >= 4:
+        # a real non-symmetric H_0 with complex-conjugate pairs of levels; one member of a pair explicit, its partner implicit
+        structure = "real H_0 with conjugate pairs"
+        Q1, _ = np.linalg.qr(rng.normal(size=(N, N))); Q2, _ = np.linalg.qr(rng.normal(size=(N, N))); sv = rng.uniform(0.6, 1.6, size=N)
+        T = (Q1 * sv) @ Q2.T; Tit = (Q1 / sv) @ Q2.T                    # T and T^-T
+        npairs = rnd.randint(1, (N - 1) // 2); W = np.eye(N, dtype=complex); ev = ev.real.astype(complex)
+        slots = [(k, N - 1 - k) for k in range(npairs)]                 # partner of the explicit level k sits at the far end (implicit)
+        for (a_, b_) in slots:
+            im = rng.uniform(0.3, 1.5); ev[a_] = ev[a_].real + 1j * im; ev[b_] = ev[a_].conjugate()
+            W[np.ix_([a_, b_], [a_, b_])] = np.array([[1, 1], [1j, -1j]]) / np.sqrt(2)
+        R = T @ W; L = Tit @ W; cplx = True
     else:
         # a well-conditioned non-unitary basis: S = Q1 diag(s) Q2^H with s in [0.6, 1.6]; L = S^-H = Q1 diag(1/s) Q2^H, so L^H R = 1
         Q1, _ = np.linalg.qr(rand((N, N))); Q2, _ = np.linalg.qr(rand((N, N))); sv = rng.uniform(0.6, 1.6, size=N)
         R = (Q1 * sv) @ Q2.conj().T; L = (Q1 / sv) @ Q2.conj().T
     H0 = (R * ev) @ L.conj().T
+    if structure == "real H_0 with conjugate pairs":
+        assert np.abs(H0.imag).max() < 1e-12; H0 = H0.real.copy()
     order = list(range(dA)); rnd.shuffle(order)                                          # arbitrary order of the explicit vectors
     split = rnd.random() < 0.5 and dA >= 3
     if split:
@@ -55,7 +76,7 @@ def gen(rnd, nh_only=False):
     if herm and rnd.random() < 0.3: solver = rnd.choice(["kpm", "kpm-aux"])
     fd = tuple(b for b in range(len(parts)) if rnd.random() < 0.3)
     return dict(N=N, cplx=cplx, herm=herm, ev=ev, R=R, L=L, H0=H0, H1=pert(0.5), H2=(pert(0.3) if rnd.random() < 0.4 else None), dA=dA, parts=parts,
-                fd=fd, solver=solver, pattern=pat)
+                fd=fd, solver=solver, pattern=pat, structure=structure)
 
 def dense(v, shape):
     if v is zero: return np.zeros(shape, dtype=complex)
@@ -78,7 +99,7 @@ def main(seed, ncases, driver, out, mode="all"):
         rest = list(range(P["dA"], N))
         def basis(idx): return R[:, idx] if herm else (R[:, idx], L[:, idx])
         vecsA = [basis(p) for p in P["parts"]]
-        key = f"{'dense' if dense_in else 'sparse'} {P['solver']} hermitian={herm} complex={P['cplx']} explicit={len(P['parts'])} degeneracy={P['pattern']} fd={bool(P['fd'])}"
+        key = f"{P['structure']}: {'dense' if dense_in else 'sparse'} {P['solver']} hermitian={herm} complex={P['cplx']} explicit={len(P['parts'])} degeneracy={P['pattern']} fd={bool(P['fd'])}"
         dist[key] = dist.get(key, 0) + 1
         desc = {"case": c, "seed": seed, "N": N, "dA": P["dA"], "parts": P["parts"], "complex": P["cplx"], "hermitian": herm, "fd": list(P["fd"]),
                 "solver": P["solver"], "explicit_energies": [complex(P["ev"][a]).real for a in sum(P["parts"], [])]}
